@@ -178,6 +178,27 @@ func s11() {
 	vs.Event(fmt.Sprintf("isopen:%v", in.IsOpen()))
 }
 
+// S12: the helper writes two lines with one write (a burst, a chord): both
+// must be delivered, in order.
+func s12() {
+	sc := script([]string{"11 903C40\n22 803C00\n", "33 C005\n"}, 0)
+	in := newIn()
+	vs.Event("open:" + errStr(in.Open()))
+	got := vs.NewChan[string](8)
+	stop, err := in.Listen(listener(1, got), drivers.ListenConfig{})
+	vs.Event("listen1:" + errStr(err))
+	if err != nil {
+		return
+	}
+	sc.Trigger.Send(0)
+	sc.Trigger.Send(1)
+	for got.Recv() != wantLine[2] {
+	}
+	stop()
+	vs.Event("stop1-returned")
+	vs.Event("close:" + errStr(in.Close()))
+}
+
 // S3: the helper cannot be started twice, then can.
 func s3() {
 	script(lines, 2)
@@ -441,6 +462,20 @@ func scenarios() []scenario {
 				return s, w
 			}
 			return expectSeq(e, []string{"open:", "listen1:", "close:", "isopen:"}, []string{"open:nil", "listen1:nil", "close:nil", "isopen:false"})
+		}},
+		{"S12-two-lines-in-one-write", s12, func(e *vs.Exec) (string, string) {
+			if s, w := deliveryRules(e); s != "" {
+				return s, w
+			}
+			if s, w := expectSeq(e, []string{"open:", "listen1:", "close:"}, []string{"open:nil", "listen1:nil", "close:nil"}); s != "" {
+				return s, w
+			}
+			d := eventsOf(e, "deliver:1:")
+			want := []string{"deliver:1:" + wantLine[0], "deliver:1:" + wantLine[1], "deliver:1:" + wantLine[2]}
+			if fmt.Sprint(d) != fmt.Sprint(want) {
+				return "delivery:burst", fmt.Sprintf("two lines written with one write, then a third: delivered %v, expected %v", d, want)
+			}
+			return "", ""
 		}},
 		{"S3-helper-cannot-start", s3, func(e *vs.Exec) (string, string) {
 			return expectSeq(e, []string{"open:", "close:", "isopen:"}, []string{"open:error", "isopen:false", "open:error", "close:nil", "open:nil", "isopen:true", "close:nil", "isopen:false"})
